@@ -13,10 +13,11 @@
 
    usage: heap_trace file.nvm|file.asm [max_steps]          trace on stdout, program output discarded (or NANO_TRACE_OUT=1: stderr)
    Line protocol (consumed by tools/props/c14.py, which feeds the I lines to the extracted Coq model):
-     I <step> <ip> <opcode-hex> <name> <nops> <operand>... | p <v0> <v1> <v2> | k <key> | c <arity> <locals> <isclos>
+     I <step> <ip> <opcode-hex> <name> <nops> <operand>... | p <v0> <v1> <v2> | c <arity> <locals> <isclos> | k <key> | d <delta>
          v = i<int64> | r<ord> | n          three topmost stack values BEFORE the instruction (v0 = top)
          key = content key of the string on top of the stack AFTER the instruction (-1 when top is not a string)
          c   = callee arity / local_count for CALL*, argc for CALL_EXTERN
+         delta = stack_size after - stack_size before the instruction (an extern call that failed pushes no result)
      A <ord> <tag> / F <ord> <tag>         allocation / free events, in order, between I lines
      S <step> <stack_size> <frame_count> <ord>:<tag>:<rc>:<indeg> ...      state AFTER instruction <step>
      V ...                                 audit violation (see above)
@@ -165,7 +166,7 @@ static void emit_state(VmState *vm) {
 /* ---------------------------------------------------------------- step hook */
 static int have_pending;
 static char pend[512];
-static uint8_t pend_op; static uint32_t pend_frames;
+static uint8_t pend_op; static uint32_t pend_frames, pend_stack;
 static long max_steps = 200000;
 
 static void fmt_val(char *out, size_t n, VmState *vm, uint32_t off) {
@@ -183,7 +184,7 @@ static void finish_pending(VmState *vm) {
         NanoValue v = vm->stack[vm->stack_size - 1];
         if (v.tag == TAG_STRING && v.as.string && tab_find(v.as.string)) key = content_key(v.as.string->data, v.as.string->length);
     }
-    fprintf(T, "%s | k %ld\n", pend, key);
+    fprintf(T, "%s | k %ld | d %ld\n", pend, key, (long)vm->stack_size - (long)pend_stack);
     if (pend_op != OP_RET && vm->frame_count < pend_frames) fprintf(T, "X %ld implicit-ret\n", cur_step);
     audit(vm);
     emit_state(vm);
@@ -226,7 +227,7 @@ static void step_cb(VmState *vm, const DecodedInstruction *in, uint32_t ip) {
     }
     snprintf(pend, sizeof pend, "I %ld %u %02x %s %d%s | p %s %s %s | c %ld %ld %ld", cur_step, ip, in->opcode,
              info ? info->name : "?", in->operand_count, ops, v0, v1, v2, ar, lc, isclos);
-    pend_op = in->opcode; pend_frames = vm->frame_count; have_pending = 1;
+    pend_op = in->opcode; pend_frames = vm->frame_count; pend_stack = vm->stack_size; have_pending = 1;
     if (cur_step >= max_steps) vm_verif_fuel = 0;
 }
 
@@ -235,7 +236,7 @@ static VmResult run_fn(VmState *vm, uint32_t fn) {
     cur_step++;
     /* the harness call itself is logged as a pseudo-instruction; its state line is emitted before the first real one */
     snprintf(pend, sizeof pend, "I %ld %u ff ENTER 1 %u | p n n n | c 0 %u 0", cur_step, f->code_offset, fn, f->local_count);
-    pend_op = OP_RET; pend_frames = vm->frame_count; have_pending = 1;
+    pend_op = OP_RET; pend_frames = vm->frame_count; pend_stack = vm->stack_size; have_pending = 1;
     VmResult r = vm_call_function(vm, fn, NULL, 0);
     finish_pending(vm);
     fprintf(T, "E %d %ld %zu %lu %s\n", (int)r, cur_step + 1, live_count, violations, r == VM_OK ? "-" : vm->error_msg);
@@ -294,7 +295,7 @@ int main(int argc, char **argv) {
     }
     /* teardown: vm_destroy releases globals and the stack; every free must hit a registered live object */
     cur_step++;
-    fprintf(T, "I %ld 0 fe DESTROY 0 | p n n n | c -1 -1 0 | k -1\n", cur_step);
+    fprintf(T, "I %ld 0 fe DESTROY 0 | p n n n | c -1 -1 0 | k -1 | d 0\n", cur_step);
     vm_verif_step_cb = NULL;
     uint32_t gc = vm.global_count;
     vm_destroy(&vm);
